@@ -146,11 +146,11 @@ func Read(fd io.Reader) (*Metrics, error) {
 		case "FontName":
 			res.FontName = fields[1]
 		case "FullName":
-			res.FullName = strings.Join(fields[1:], " ")
+			res.FullName = textValue(line)
 		case "Version":
-			res.Version = strings.Join(fields[1:], " ")
+			res.Version = textValue(line)
 		case "Notice":
-			res.Notice = strings.Join(fields[1:], " ")
+			res.Notice = textValue(line)
 		case "CapHeight":
 			x, err := strconv.ParseFloat(fields[1], 64)
 			if err != nil {
@@ -206,4 +206,15 @@ func Read(fd io.Reader) (*Metrics, error) {
 	}
 
 	return res, nil
+}
+
+// textValue returns the text which follows the keyword on a line.  White
+// space inside the text is significant and is kept as it is.
+func textValue(line string) string {
+	line = strings.TrimSpace(line)
+	i := strings.IndexAny(line, " \t")
+	if i < 0 {
+		return ""
+	}
+	return strings.TrimSpace(line[i+1:])
 }
